@@ -247,6 +247,24 @@ def runModule (w : World) (maxDepth : Nat) (b : Nat) (acc : BlockAcc) (m : ModSp
   | .ok true => .ok acc
   | .ok false => execModule w b acc m
 
+/-! ### blocks of a fork tree
+Two blocks of different branches have the same number and different content.  The script world makes the
+content a function of one number; for a block that is not on the canonical chain of the harness that number is
+`e = b + salt(id)` (`Model/Forks.lean` `saltOf`), while everything the engine itself decides by block number
+(initial blocks, the scripted failure) keeps using `b`. -/
+
+def execModuleE (w : World) (b e : Nat) (acc : BlockAcc) (m : ModSpec) : Except LErr BlockAcc :=
+  if canSkip acc.outs acc.deltas m then .ok acc else
+  if m.failAt = some b then .error (.moduleFailure m.name b) else
+  execModule w e acc { m with failAt := none }
+
+def runModuleE (w : World) (maxDepth : Nat) (b e : Nat) (acc : BlockAcc) (m : ModSpec) : Except LErr BlockAcc :=
+  if b < m.init then .ok acc else
+  match filterSkip maxDepth acc m with
+  | .error x => .error x
+  | .ok true => .ok acc
+  | .ok false => execModuleE w b e acc m
+
 /-! ### cached outputs (`getCachedOutput` / `applyCachedOutput`) -/
 
 /-- what an output file holds for a module on a block: a map/index output, or a store's operation log -/
